@@ -64,6 +64,10 @@ ZUntil(z, t1, t2, largest) ==
           Ok(Dur10(FromInt(r.y), FromInt(r.mo), FromInt(r.w), FromInt(r.d), tb.h, tb.mi, tb.s, tb.ms, tb.us, tb.ns))
 ZSince(z, t1, t2, largest) == LET o == ZUntil(z, t1, t2, largest) IN IF o.kind # "ok" THEN o ELSE Ok(NegDur(o.val))
 
+\* withPlainTime(time): the receiver's local date with another wall-clock time, read with the compatible rule
+\* (sod: seconds since local midnight; absent time = start of the day)
+ZWithPlainTime(z, t, sod) == Disambiguate(z, WOf(WDate(Wall(z, t)), sod), "compatible")
+
 \* start of the local calendar day containing instant t, and that day's real length in seconds
 ZStartOfDay(z, t) == StartOfDay(z, (Wall(z, t) \div 86400) * 86400)
 DayLength(z, t) == LET d0 == (Wall(z, t) \div 86400) * 86400 IN StartOfDay(z, d0 + 86400) - StartOfDay(z, d0)
